@@ -98,6 +98,7 @@ func originProbes(c *cors.Config, r R) []string {
 			out = append(out, nm[r.Intn(len(nm))], nm[r.Intn(len(nm))])
 			out = append(out, wrapPortOrigins(p)...)
 			out = append(out, defaultPortOrigins(p)...)
+			out = append(out, bracketedOrigins(p)...)
 		}
 	}
 	return out
@@ -209,6 +210,25 @@ func defaultPortOrigins(pat string) []string {
 	}
 	base := pat[:idx+3] + strings.Replace(rest, "*.", "sub.", 1)
 	return []string{base + ":443", base + ":80"}
+}
+
+// bracketedOrigins: the pattern's host (and `.`+base for a wildcard) inside brackets, which the lenient request-side
+// parser strips whatever they enclose
+func bracketedOrigins(pat string) []string {
+	idx := strings.Index(pat, "://")
+	if idx < 0 {
+		return nil
+	}
+	scheme, rest := pat[:idx+3], pat[idx+3:]
+	if strings.HasPrefix(rest, "[") {
+		return nil
+	}
+	host, port := rest, ""
+	if i := strings.LastIndexByte(rest, ':'); i >= 0 {
+		host, port = rest[:i], port0(rest[i:])
+	}
+	base := strings.TrimPrefix(host, "*.")
+	return []string{scheme + "[." + base + "]" + port, scheme + "[" + base + "]" + port, scheme + "[a." + base + "]" + port}
 }
 
 func genRequest(c *cors.Config, r R) reqT {
